@@ -384,3 +384,41 @@ Section Modes2D.
     rewrite (all_modes_fixed_2d m hist (S k) Hum Hs), plain2d_fixed_unfold, Ho. f_equal. f_equal. exact (f_equal snd Hit).
   Qed.
 End Modes2D.
+
+(* ================================================================== memo modes, ANY rule state machine
+   evolve_mode_dynamic IS evolve_dynamic over step_memo / step_recursive (and over the logging plain
+   step), so gating, argument log and "equals the fixed-count run of the same mode" need nothing about
+   the rule: the cache contents, the rule's final state and its call log coincide too. *)
+Section AnyRule1D.
+  Variable St : Type.
+  Variable rule : rule1 St.
+  Variable store : Z -> Z.
+
+  Lemma memo_modes_any_rule_1d : forall (P : Type) (pred : P -> list (list Z) -> nat -> P * bool) (m : mode) r k fuel p0 s0
+      (hist : list (list Z)) (ps : nat -> P) s' lg rows pk,
+    hist <> [] ->
+    evolve_mode_fixed rule store m r s0 hist (S k) = Ok (s', lg, hist ++ rows) ->
+    ps 0 = p0 ->
+    (forall j, j < k -> pred (ps j) (last hist [] :: firstn j rows) (S j) = (ps (S j), true)) ->
+    pred (ps k) (last hist [] :: rows) (S k) = (pk, false) ->
+    k < fuel ->
+    evolve_mode_dynamic rule store pred m r fuel p0 s0 hist
+    = Some (pk, (s', lg, hist ++ rows), map (fun j => (last hist [] :: firstn (j - 1) rows, j)) (seq 1 (S k))).
+  Proof.
+    intros P pred m r k fuel p0 s0 hist ps s' lg rows pk Hne E H0 Hyes Hno Hf.
+    destruct m; unfold evolve_mode_fixed, evolve_mode_dynamic, evolve_plain, evolve_plain_dynamic in *;
+      rewrite evolve_fixed_unfold in E.
+    - destruct (iter_steps (step_plain (logged1 rule) store r) k (s0, []) (last hist []) 1) as [[sx lx] rx] eqn:Ei.
+      cbn [fst snd bind] in E. injection E as -> -> Eo. apply app_inv_head in Eo. subst rx.
+      destruct (dynamic_spec _ _ _ [] _ pred k fuel p0 (s0, []) hist ps _ rows pk Hne Ei H0 Hyes Hno Hf) as [D [A _]].
+      rewrite D, A. reflexivity.
+    - destruct (iter_steps (step_memo rule store r) k (s0, [], []) (last hist []) 1) as [[[sx cx] lx] rx] eqn:Ei.
+      cbn [fst snd bind] in E. injection E as -> -> Eo. apply app_inv_head in Eo. subst rx.
+      destruct (dynamic_spec _ _ _ [] _ pred k fuel p0 _ hist ps _ rows pk Hne Ei H0 Hyes Hno Hf) as [D [A _]].
+      rewrite D, A. reflexivity.
+    - destruct (iter_steps (step_recursive rule store r) k (s0, [], []) (last hist []) 1) as [[[sx cx] lx] rx] eqn:Ei.
+      cbn [fst snd bind] in E. injection E as -> -> Eo. apply app_inv_head in Eo. subst rx.
+      destruct (dynamic_spec _ _ _ [] _ pred k fuel p0 _ hist ps _ rows pk Hne Ei H0 Hyes Hno Hf) as [D [A _]].
+      rewrite D, A. reflexivity.
+  Qed.
+End AnyRule1D.
